@@ -49,6 +49,11 @@ def getattr_(I, obj, name):
                 return ctx.typed(ctx.load_raw(ctx.ref_id(obj), name), ty.fields[name])
             if name in ty.methods:
                 return AbstractMethod(obj, name, ty.methods[name])
+            if name in getattr(ty, "optional", {}):
+                has = Z.Val.b(ctx.load_raw(ctx.ref_id(obj), "has:" + name))
+                if not ctx.branch(has, "hasattr(%s)" % name):
+                    raise _attr_error(I, obj, name)
+                return ctx.typed(ctx.load_raw(ctx.ref_id(obj), name), ty.optional[name])
             if name == "__class__":
                 return I.B.AbsClass(obj)
             if getattr(ty, "open_attrs", False):
@@ -310,11 +315,11 @@ def setattr_(I, obj, name, v):
                 I.call(BoundMethod(obj, mem.setter, owner), [v], {})
                 return
             fty = ty.fields.get(name)
-            if fty is None and not ty.fields and isinstance(v, VDict) and getattr(v, "sym", None) is None and any(isinstance(k, (SymKey, tuple)) for k in v.items):
-                # an object built in this body (no shape of its own): a dict keyed by tuples takes the representation the sidecars' shape of
+            if fty is None and not ty.fields and isinstance(v, (VDict, VList, VTuple, VSet)) and getattr(v, "sym", None) is None:
+                # an object built in this body (no shape of its own): a container display takes the representation the sidecars' shape of
                 # this class declares for the attribute, so that a postcondition can speak about it
-                dty = TObj.declared_field(ty.cls.key, name)
-                if isinstance(dty, TSeq) and dty.kind == "dict-items":
+                dty = ctx.resolve_ty(TObj.declared_field(ty.cls.key, name))
+                if (isinstance(dty, TSeq) and (isinstance(v, (VList, VTuple)) or dty.kind == "dict-items")) or (isinstance(dty, TMap) and isinstance(v, VDict)) or (type(dty).__name__ == "TSet" and isinstance(v, VSet)):
                     v = materialise_for(I, v, dty)
             v = materialise_for(I, v, fty)
             sv = ctx.to_val(v)
@@ -347,6 +352,18 @@ def setattr_(I, obj, name, v):
                     ctx.oblige("fieldtype[%s.%s]" % (ty.name, name), fty.inv(sv.t, goal=True), kind="type")
                 ctx.store_raw(ctx.ref_id(obj), name, sv.t)
                 ctx.wrote(name, ctx.ref_id(obj))
+                if ty.events:
+                    ctx.emit("store", obj, name, sv)
+                return
+            if name in getattr(ty, "optional", {}):
+                sv = ctx.to_val(v)
+                fty = ty.optional[name]
+                if fty is not None and not isinstance(fty, TAny):
+                    ctx.oblige("fieldtype[%s.%s]" % (ty.name, name), ctx.resolve_ty(fty).inv(sv.t, goal=True), kind="type")
+                ctx.store_raw(ctx.ref_id(obj), name, sv.t)
+                ctx.store_raw(ctx.ref_id(obj), "has:" + name, Z.mk_bool(True))
+                ctx.wrote(name, ctx.ref_id(obj))
+                ctx.wrote("has:" + name, ctx.ref_id(obj))
                 if ty.events:
                     ctx.emit("store", obj, name, sv)
                 return
